@@ -292,7 +292,7 @@ def apply(m: Model, op):
         m.add(op[1], "d")
 
 
-def valid(m: Model, op, paced=True):
+def valid(m: Model, op, paced=True, paced_out=True):
     """Pre-condition of op in model state m (used by the generator and by the minimiser's re-validation).
     With paced=True the directory pacing rule of C01 is enforced as well."""
     k = op[0]
@@ -369,7 +369,7 @@ def valid(m: Model, op, paced=True):
         return True
     if k == "rmroot":
         return ROOT in t
-    if k in ("out_mkfile", "out_mkdir", "out_rmtree") and paced and (m.inside_tainted(op[1]) or m.eid(op[1]) in m.tainted_ids or m.eid(parent(op[1])) in m.tainted_ids):
+    if k in ("out_mkfile", "out_mkdir", "out_rmtree") and paced and paced_out and (m.inside_tainted(op[1]) or m.eid(op[1]) in m.tainted_ids or m.eid(parent(op[1])) in m.tainted_ids):
         return False
     if k == "out_mkfile":
         return op[1] not in t and m.kind(parent(op[1])) == "d" and is_under(op[1], OUT)
@@ -445,7 +445,7 @@ DEFAULT_WEIGHTS = {
 }
 
 
-def gen_ops(rng: random.Random, m: Model, n, names=("a", "b", "c"), max_depth=3, weights=None, paced=True, drain_each=False, allow=None):
+def gen_ops(rng: random.Random, m: Model, n, names=("a", "b", "c"), max_depth=3, weights=None, paced=True, drain_each=False, allow=None, paced_out=True):
     """Generate n operations against (and updating) model m, respecting the pacing rule."""
     w = dict(weights or DEFAULT_WEIGHTS)
     if allow is not None:
@@ -535,7 +535,7 @@ def gen_ops(rng: random.Random, m: Model, n, names=("a", "b", "c"), max_depth=3,
             if ods:
                 od = rng.choice(ods)
                 op = [k, od] if k == "out_rmtree" else [k, od + "/" + rng.choice(names)]
-        if op is None or not valid(m, op, paced):
+        if op is None or not valid(m, op, paced, paced_out):
             continue
         if op[0] == "rename" and m.kind(op[1]) == "d" and m.eid(op[1]) in m.tainted_ids and rng.random() < 0.5:
             continue  # renaming a just-arrived directory is allowed but not the common case
@@ -556,7 +556,7 @@ def gen_ops(rng: random.Random, m: Model, n, names=("a", "b", "c"), max_depth=3,
     return ops
 
 
-def revalidate(pre_ops, ops, paced=True):
+def revalidate(pre_ops, ops, paced=True, paced_out=True):
     """Independent re-validation of a (possibly shrunk) history: returns the sub-list of ops whose pre-condition
     holds when replayed on the model (an operation whose pre-condition no longer holds is skipped)."""
     m = Model()
@@ -564,7 +564,7 @@ def revalidate(pre_ops, ops, paced=True):
         apply(m, op)
     kept = []
     for op in ops:
-        if not valid(m, op, paced):
+        if not valid(m, op, paced, paced_out):
             continue
         before = Model.__new__(Model)
         before.t = dict(m.t)
